@@ -18,6 +18,12 @@ CLAIMED = {
         "Spec-free oracle: the library is compared with itself, so it cannot demand more than the statement. Covers only inputs the workload produces.",
         "DESIGN.md section 3, C02",
     ),
+    "C08": (
+        "runtime monitor: metamorphic JSON equalities (from_value.to_value = id, publish = to_mt_message, parse plugin = to_value.parse) + structural scan (input order, no empty placeholders, numeric leaves) on generated, corpus and field-level values",
+        "Exploration: generated well-formed messages of all 30 types in generated and corpus envelopes, all corpus messages and every corpus field content with spelling variants through every field type: JSON round trip must not change the value, publishing the JSON must equal direct serialisation, the parse plugin must agree with the typed API, every written occurrence must sit at its input position in the JSON, no empty placeholder and no non-numeric amount / rate.",
+        "Equality judged on Debug rendering and serde_json values (null = absent, numbers by exact decimal).",
+        "DESIGN.md section 3, C08",
+    ),
     "C09": (
         "runtime monitor: deletion / corruption of every field occurrence of generated valid messages; mandatory-ness decided by an independent layout acceptor; culprit identification checked on structured and rendered errors",
         "Exploration: for valid generated messages of all 30 types every occurrence is deleted (judged when the independent layout acceptor rejects the remaining tag sequence) and every structured field is given three certainly-invalid contents; the library must reject and the error must identify tag and message type / tag and content.",
